@@ -104,10 +104,19 @@ def check_multi(case, scratch, stats=None):
         roots.append(r)
     kinds = []
     args = []
-    for ti, path in case['multi']:
+    for n, item in enumerate(case['multi']):
+        ti, path = item[0], item[1]
         v = refverify.expected_verify(roots[ti], TOP, path, None)
         kinds.append(v.kind)
-        args.append(os.path.join(roots[ti], path) if path else roots[ti])
+        real = os.path.join(roots[ti], path) if path else roots[ti]
+        if len(item) > 2:
+            # the argument is a directory symlink OUTSIDE the tree that leads to this directory; what has to be
+            # verified is the directory the link leads to, whatever the link is called
+            ldir = fresh_root(scratch, f'l{n}')
+            os.makedirs(ldir, exist_ok=True)
+            os.symlink(real, os.path.join(ldir, item[2]))
+            real = os.path.join(ldir, item[2])
+        args.append(real)
     want_ok = all(k == 'match' for k in kinds)
     definite = all(k in ('match', 'mismatch') for k in kinds)
     o = gem.cli(['verify'] + list(case['flags']) + args)
@@ -870,9 +879,20 @@ def f9_run(spec, tier, seed, scratch, stats):
                 else:
                     trees = [one_tree({d: h for d, h in bad.items() if d == dd}).to_json() for dd in dirs]
                     multi = [(i, '') for i in range(k)]
-                for flags in ((), ('-k',)):
-                    desc = (spec, layout, mask, how, flags)
-                    case = {'trees': trees, 'multi': multi, 'flags': list(flags), 'desc': repr(desc)}
+                variants = [('direct', multi)]
+                if layout == 'one_tree' and how == 'alter':
+                    # each path given through a symlink outside the tree, named like ANOTHER directory of the tree
+                    # (the next one, cyclically) / with a name no directory has
+                    variants.append(('link_named_like_sibling',
+                                     [(ti, d, dirs[(dirs.index(d) + 1) % k]) for ti, d in multi]))
+                    variants.append(('link_other_name', [(ti, d, 'lnk') for ti, d in multi]))
+                    for ti, d in multi:         # and each of them alone
+                        variants.append((f'one_link_named_like_sibling:{d}', [(ti, d, dirs[(dirs.index(d) + 1) % k])]))
+                for (vname, multi_v), flags in itertools.product(variants, ((), ('-k',))):
+                    desc = (spec, layout, mask, how, flags, vname)
+                    case = {'trees': trees, 'multi': [list(x) for x in multi_v], 'flags': list(flags), 'desc': repr(desc)}
+                    if vname != 'direct':
+                        stats.counters['multi_path_via_symlink'] += 1
                     vs, kinds = check_case(case, scratch, stats)
                     stats.case(desc, nontrivial=any(mask))
                     stats.counters['multi_path_cli_cases'] += 1
